@@ -312,6 +312,18 @@ def arbitrary_text(draw, tier):
 
 
 @st.composite
+def format_objects(draw, tier):
+    """Formats of order 0-14 (two-digit ordering entries above 9) in both spellings."""
+    order = draw(st.sampled_from([0, 1, 2, 3, 4, 6, 9, 10, 11, 12, 14]))
+    modes = [draw(st.sampled_from("ds")) for _ in range(order)]
+    ordering = list(draw(st.permutations(range(order)))) if draw(st.integers(0, 4)) else list(range(order))
+    spelled = "".join(f"{m}{o}" for m, o in zip(modes, ordering))
+    if ordering == list(range(order)) and draw(st.booleans()):
+        spelled = "".join(modes)
+    return {"kind": "format_object", "modes": modes, "ordering": ordering, "text": spelled}
+
+
+@st.composite
 def trees(draw, tier):
     """Trees built directly from tensora's AST classes (as a nested list; see build_tree)."""
     orders = {}
@@ -380,6 +392,24 @@ def check_text(case, ctx=None):
     fails = []
     labels = {f"kind:{kind}"}
     nontrivial = False
+    if kind == "format_object":
+        from tensora.format import Mode
+
+        text = case["text"]
+        want = Format(tuple(Mode.dense if m == "d" else Mode.compressed for m in case["modes"]), tuple(case["ordering"]))
+        st_, v = safe_parse(parse_format, text)
+        if st_ != "success" or v != want:
+            fails.append(fail("format-text-misparsed", f"{text!r}: {st_} {v}"))
+        d1 = want.deparse()
+        st2, v2 = safe_parse(parse_format, d1)
+        if st2 != "success" or v2 != want:
+            fails.append(fail("format-round-trip", f"{want} prints as {d1!r}, which parses to {st2} {v2 if st2 != 'success' else v2.deparse()}"))
+        st3, v3 = safe_parse(parse_named_format, "T1:" + d1)
+        if st3 != "success" or v3 != ("T1", want):
+            fails.append(fail("named-format-round-trip", f"'T1:{d1}': {st3} {v3}"))
+        labels.add(f"format_order_{'10+' if len(case['modes']) >= 10 else 'lt10'}")
+        return result(fails, labels, len(case["modes"]) >= 2 and case["ordering"] != sorted(case["ordering"]), jhash(text),
+                      {"format": text})
     if kind == "tree":
         try:
             asg = Assignment(build_tree(["t"] + case["target"]), build_tree(case["tree"]))
@@ -468,6 +498,7 @@ STREAMS = {
     "arbitrary": {"strategy": arbitrary_text, "check": check_text},
     "invalid": {"strategy": invalid_sentences, "check": check_text},
     "trees": {"strategy": trees, "check": check_text},
+    "formats": {"strategy": format_objects, "check": check_text},
 }
 
 
@@ -598,6 +629,7 @@ def run(chk):
     chk.absorb(run_stream(__name__, "arbitrary", chk.tier, chk.seed, 1600 if quick else 100000), kind="text")
     chk.absorb(run_stream(__name__, "invalid", chk.tier, chk.seed, 400 if quick else 10000), kind="text")
     chk.absorb(run_stream(__name__, "trees", chk.tier, chk.seed, 1200 if quick else 60000), kind="text")
+    chk.absorb(run_stream(__name__, "formats", chk.tier, chk.seed, 800 if quick else 40000), kind="text")
     max_len = 6 if quick else 8
     prefixes = ["".join(p) for p in itertools.product("ds0123", repeat=2)]
     tasks = [(p, max_len) for p in prefixes] + [("", 1)]
